@@ -968,10 +968,15 @@ def _constlike(e) -> bool:
         return True
     d = _dotted(e)
     if d:
-        last = d.split(".")[-1]
+        parts = d.split(".")
+        last = parts[-1]
+        if last == "size" and len(parts) >= 2:  # _STRUCT.size
+            last = parts[-2]
         return last.upper() == last and any(c.isalpha() for c in last)
     if isinstance(e, ast.UnaryOp) and isinstance(e.op, ast.USub):
         return _constlike(e.operand)
+    if isinstance(e, ast.BinOp) and isinstance(e.op, (ast.Add, ast.Sub, ast.Mult)):
+        return _constlike(e.left) and _constlike(e.right)
     return False
 
 
@@ -1016,6 +1021,13 @@ class _Normalise(ast.NodeTransformer):
 
     def visit_Compare(self, node):
         self.generic_visit(node)
+        if len(node.ops) > 1 and all(isinstance(c, ast.Constant) or _dotted(c) for c in node.comparators[:-1]):
+            # `a < b <= c` with a plain middle operand is `a < b and b <= c`
+            parts, left = [], node.left
+            for op, right in zip(node.ops, node.comparators):
+                parts.append(self.visit_Compare(ast.copy_location(ast.Compare(left=copy.deepcopy(left), ops=[op], comparators=[copy.deepcopy(right)]), node)))
+                left = right
+            return ast.copy_location(ast.BoolOp(op=ast.And(), values=parts), node)
         if len(node.ops) != 1:
             return node
         op, l, r = node.ops[0], node.left, node.comparators[0]
@@ -1175,18 +1187,23 @@ class _Normalise(ast.NodeTransformer):
         if not (isinstance(st, ast.Assign) and len(st.targets) == 1 and isinstance(st.targets[0], ast.Tuple) and isinstance(st.value, ast.Tuple) and len(st.targets[0].elts) == len(st.value.elts) >= 2):
             return None
         tg, vs = st.targets[0].elts, st.value.elts
-        if not all(isinstance(t, ast.Name) for t in tg):
+        if not all(isinstance(t, ast.Name) or (isinstance(t, ast.Attribute) and _dotted(t)) for t in tg):
             return None
         for j, v in enumerate(vs):
             if any(isinstance(x, (ast.Await, ast.NamedExpr, ast.Starred, ast.Yield)) for x in ast.walk(v)):
                 return None
             # sequential assignment is the same as the parallel one when no earlier target is read by a later value
-            earlier = {t.id for t in tg[:j]}
+            earlier = {t.id for t in tg[:j] if isinstance(t, ast.Name)}
             if any(isinstance(x, ast.Name) and x.id in earlier for x in ast.walk(v)):
+                return None
+            # an earlier attribute target: the later value may not read an attribute of that name (through any object) nor call anything
+            eattrs = {t.attr for t in tg[:j] if isinstance(t, ast.Attribute)}
+            if eattrs and any((isinstance(x, ast.Attribute) and x.attr in eattrs) or isinstance(x, ast.Call) for x in ast.walk(v)):
                 return None
         out = []
         for t, v in zip(tg, vs):
-            a = ast.Assign(targets=[ast.Name(id=t.id, ctx=ast.Store())], value=v)
+            t2 = copy.deepcopy(t)
+            a = ast.Assign(targets=[t2], value=v)
             ast.copy_location(a, st)
             ast.fix_missing_locations(a)
             out.append(a)
@@ -2119,6 +2136,8 @@ def _inline_new_constants(tree: ast.Module, ref: dict, notes: list) -> ast.Modul
                 if any(stores.get(n, 0) > 1 for n in inner):
                     continue
             cands[tgt] = (st, val)
+        # one layer per round: a candidate whose value mentions another candidate waits for the next round
+        cands = {k: v for k, v in cands.items() if not any(isinstance(n, ast.Name) and n.id in cands for n in ast.walk(v[1]))}
         if not cands:
             break
         sub = _Subst({k: v[1] for k, v in cands.items()})
